@@ -17,7 +17,7 @@ import (
 	"verif/harness/world"
 )
 
-const repoProps = "INVARIANTS TypeOK Atomic LockOK NoResidue LiveKept CrashSafe OnlyAccepted\nPROPERTIES Monotone FailKeeps SwapLocked\n"
+const repoProps = "INVARIANTS TypeOK Atomic LockOK NoResidue NoResidueClosed LiveKept CrashSafe OnlyAccepted\nPROPERTIES Monotone FailKeeps SwapLocked ClosedStaysClosed\n"
 
 type repoState struct {
 	Origin struct {
@@ -39,6 +39,7 @@ type repoState struct {
 		Keys []string `json:"keys"`
 		Full bool     `json:"full"`
 	} `json:"stage"`
+	Closed  bool   `json:"closed"`
 	Aside   bool   `json:"aside"`
 	Tmpfile bool   `json:"tmpfile"`
 	Loaded  bool   `json:"loaded"`
@@ -264,6 +265,40 @@ func runRepoWalk(c *vk.Ctx, prop string, disk bool, walk []*graph.Edge, seed int
 			if s := rr.advanceTo(siteFor(to.Kind, "tmp")); s != siteFor(to.Kind, "tmp") {
 				c.Drift("repo-start:" + to.Kind + ":" + s)
 				return rr.images
+			}
+		case "shutdown":
+			// Cleanup of the instance while its refresh is parked in flight (Caddy unloads a configuration whenever it is told to)
+			done := make(chan error, 1)
+			go func() { done <- rw.w.Cleanup() }()
+			select {
+			case <-done:
+			case <-time.After(30 * time.Second):
+				c.Violation(fmt.Sprintf("%s:cleanup-does-not-return-during-refresh:at=%s", backendName(disk), from.Lpc), "Cleanup did not return within 30 s while a refresh was in flight at "+from.Lpc, rr.rep())
+				rr.poison = true
+				return rr.images
+			}
+		case "reprovision":
+			rr.finish()
+			if err := rw.w.Provision(); err != nil {
+				c.Violation(fmt.Sprintf("%s:provision-fails-after-cleanup-during-refresh", backendName(disk)),
+					fmt.Sprintf("the instance was cleaned up while a refresh was in flight; after that run had ended a new instance could not be provisioned on the work_dir: %v", err), rr.rep())
+				rr.poison = true
+				return rr.images
+			}
+			repo := rw.w.V.VerifCRLChecker().VerifRepository()
+			repo.Factory = faultFactory{inner: repo.Factory, f: rw.fault}
+			// the new instance learns the location from the first certificate that names it (the store is found on disk)
+			rw.w.Handshake(rw.chains["driver"])
+			if to.Loaded {
+				// the store the closed instance left behind is found and usable: the list that was in force answers the lookups
+				res, _ := rw.probe(2 * time.Second)
+				if got, ok := listedOf(res); !ok || got != keyStr(to.LiveDoc.Keys) {
+					stop.Probes = res
+					c.Violation(fmt.Sprintf("%s:store-lost-or-unusable-after-cleanup-during-refresh", backendName(disk)),
+						fmt.Sprintf("the instance was cleaned up while a refresh was in flight (the run ended by itself); the new instance on the same work_dir should find the list {%s} in force, but its lookups answer {%s} (ok=%v): the store was replaced, deleted or is still held open by the dead instance", keyStr(to.LiveDoc.Keys), got, ok), rr.rep2(&stop))
+					rr.poison = true
+					return rr.images
+				}
 			}
 		case "done", "fail":
 			// no real counterpart: the run has ended or ends with the deferred cleanup
@@ -566,6 +601,28 @@ func C20(c *vk.Ctx) {
 			}
 		}
 	}
+	// Cleanup while a refresh is in flight (CrlRepo.tla: Shutdown, LSwapClosed, Reprovision; ClosedStaysClosed, NoResidueClosed)
+	{
+		g, _ := exportRepoGraph(c, true, 3)
+		init := freshInit(g)
+		for _, plans := range shutdownScenarios() {
+			if c.Violations() > 8 {
+				break
+			}
+			w := guidedWalk(g, init, plans)
+			shut := false
+			for _, e := range w {
+				if opName(e) == "shutdown" {
+					shut = true
+				}
+			}
+			if !shut {
+				c.Infra("no shutdown edge on the guided walk for %+v", plans[1])
+			}
+			runRepoWalk(c, "C20", true, w, c.Seed*1019+int64(walks), "", nil)
+			walks++
+		}
+	}
 	walks += c20Locations(c, rng)
 	walks += c20Lifecycle(c)
 	c.Set("states", states)
@@ -709,6 +766,9 @@ type runPlan struct {
 	Kind   string   // origin kind: good | badsig | trunc | garbage | down
 	Keys   []string // listed probes
 	Inject string   // "" | "stageErr" | "insertErr"
+	// ShutdownAt: the instance is cleaned up when the refresh of this plan is at that pc; a new instance is provisioned on the same
+	// work_dir after the run has ended
+	ShutdownAt string
 }
 
 func opName(e *graph.Edge) string {
@@ -747,12 +807,27 @@ func guidedWalk(g *graph.Graph, init string, plans []runPlan) []*graph.Edge {
 		}
 		started := false
 		injected := false
+		shut := false
 		for steps := 0; steps < 60; steps++ {
 			var pick *graph.Edge
 			var ok, bad []*graph.Edge
+			var cst repoState
+			json.Unmarshal(g.State[cur], &cst)
+			if p.ShutdownAt != "" && !cst.Closed && cst.Lpc == p.ShutdownAt && !shut {
+				for _, e := range g.Out[cur] {
+					if opName(e) == "shutdown" {
+						walk = append(walk, e)
+						cur = e.To
+						shut = true
+					}
+				}
+				if shut {
+					continue
+				}
+			}
 			for _, e := range g.Out[cur] {
 				n := opName(e)
-				if n == "publish" || (started && n == "start") {
+				if n == "publish" || (started && n == "start") || n == "shutdown" || n == "reprovision" {
 					continue
 				}
 				var to repoState
@@ -788,6 +863,14 @@ func guidedWalk(g *graph.Graph, init string, plans []runPlan) []*graph.Edge {
 			}
 			if opName(pick) == "done" {
 				break
+			}
+		}
+		if shut {
+			for _, e := range g.Out[cur] {
+				if opName(e) == "reprovision" {
+					walk = append(walk, e)
+					cur = e.To
+				}
 			}
 		}
 	}
@@ -831,6 +914,17 @@ func repoScenarios(rng *rand.Rand, thorough bool) [][]runPlan {
 	}
 	if !thorough {
 		rng.Shuffle(len(out), func(i, j int) { out[i], out[j] = out[j], out[i] })
+	}
+	return out
+}
+
+// shutdownScenarios: a refresh is in flight (at every pc before the swap) when the instance is cleaned up; the run ends by itself,
+// a new instance is provisioned on the same work_dir and refreshes successfully.
+func shutdownScenarios() [][]runPlan {
+	old := runPlan{Kind: "good", Keys: []string{"x", "z"}}
+	var out [][]runPlan
+	for _, at := range []string{"tmp", "info", "fetching", "fetched", "staged", "parsed", "verified"} {
+		out = append(out, []runPlan{old, {Kind: "good", Keys: []string{"y", "z"}, ShutdownAt: at}, {Kind: "good", Keys: []string{"x", "y", "z"}}})
 	}
 	return out
 }
